@@ -186,7 +186,11 @@ def run(W, cfg):
         if cfg.get('fft') and not cfg.get('pre') and not isinstance(cfg.get('post'), list):        # (the FFT propagator refuses tilted wavefronts: C09)
             Nf = cfg['fft']
             duf = (lam * f / (Nf * dx[0]), lam * f / (Nf * dx[1]))            # 1/alpha = Nf exactly on both axes
-            o = lt.propagate_fft(w, pixelscale=duf, oversample=1)
+            if 'fft_scratch' not in res:
+                res['fft_scratch'] = W.complexes('scr', (Nf + 2, Nf + 1))          # one dirty buffer shared by the three descriptions
+            o = lt.propagate_fft(w, pixelscale=duf, oversample=1, scratch=res['fft_scratch']) if cfg['fft'] % 2 == 0 else lt.propagate_fft(w, pixelscale=duf, oversample=1)
+            if cfg['fft'] % 2 == 0:
+                W.ob(f'{name}: with the shared scratch = without a scratch', o.field, lt.propagate_fft(w, pixelscale=duf, oversample=1).field)
         else:
             o = lt.propagate_dft(w, pixelscale=du, shape=tuple(cfg['shape']), prop_shape=tuple(cfg['prop']), oversample=cfg['os'], mask=omask)
         f1, i1 = o.field, o.intensity
@@ -194,6 +198,7 @@ def run(W, cfg):
         W.ob(f'{name}: reading the field again after the intensity gives the same field', f2, f1)
         W.ob(f'{name}: reading the intensity twice gives the same intensity', i2, i1)
         res[name] = (f1, i1)
+    res.pop('fft_scratch', None)
     S = res['mono'][0].shape
     W.ob('field seg=mono', res['seg'][0], res['mono'][0])
     if 'whole' in res:
